@@ -21,7 +21,9 @@ class LimitedStringIO(StringIO):
 
     def write(self, __s: str) -> int:  # noqa: D102
         if __s:
-            self.size += len(__s.encode("utf-8"))
+            # Lone surrogates (from `json.loads`, for example) are text too. They
+            # count as the three bytes that would represent them.
+            self.size += len(__s.encode("utf-8", errors="surrogatepass"))
             if self.size > self.limit:
                 raise OutputStreamLimitError("output stream limit reached", token=None)
         return super().write(__s)
